@@ -40,7 +40,7 @@ FILE_LAYOUTS = {
     # documented alternatives for handing over the same file: other accepted suffixes, a table
     # in another FITS extension (reader option hdu), HDF5 datasets inside a group
     "fits": [None, None, {"suffix": ".cat"}, {"hdu": 2}],
-    "hdf5": [None, None, {"suffix": ".h5"}, {"suffix": ".hdf"}, {"group": "data/set1"}],
+    "hdf5": [None, None, {"suffix": ".h5"}, {"suffix": ".hdf"}, {"group": "data/set1"}, {"chunks": 7}, {"chunks": 64, "compression": "gzip"}],
     "parquet": [None, None, {"suffix": ".pq"}, {"suffix": ".pqt"}, {"suffix": ".parq"}],
 }
 
@@ -108,9 +108,14 @@ def _write_layout(kind, table, tmp, row_group_size, layout):
 
         path = tmp / ("input" + (suffix or ".hdf5"))
         prefix = (layout["group"] + "/") if layout.get("group") else ""
+        opts = {}
+        if layout.get("chunks"):  # chunked (optionally compressed) storage layout instead of contiguous
+            opts["chunks"] = (max(1, min(int(layout["chunks"]), len(cols["ra"]))),)
+            if layout.get("compression"):
+                opts["compression"] = layout["compression"]
         with h5py.File(path, "w") as f:
             for k, v in cols.items():
-                f.create_dataset(prefix + k, data=v)
+                f.create_dataset(prefix + k, data=v, **opts)
         return path, {}, prefix
     if kind == "parquet":
         import pyarrow as pa
